@@ -108,12 +108,21 @@ def check(case):
     u = mk_face(m, P['u'])
     FL = pf.fluxLimiter(P['FL'])
 
-    # ---- (i) residual identity over 1..3 steps
+    # ---- (i) residual identity over 1..3 steps.  The usual time loop: the SAME solution variable, the same spatial term
+    # objects, and - for a per-cell alpha - the same coefficient variable, whose values are updated in place between steps
+    # (a storage coefficient that depends on the solution); every step must use the values current at that step
+    alpha0 = alpha.copy()
+    acv = None if np.isscalar(P['alpha']) else problem.cellvar(m, P['alpha'])
+    spatial = problem.spatial_terms(m, dict(P, scheme='upwind' if P['scheme'] == 'tvd' else P['scheme']))
     for k in range(P['steps']):
         oldfull = np.array(phi._value, float)
         old = np.array(phi.value, float).ravel()
         tv = pf.convectionTVDupwindRHSTerm(u, phi, FL) if P['scheme'] == 'tvd' else np.zeros(A.shape[0])
-        problem.step_implicit(m, phi, P, dt)
+        if acv is not None and k > 0:
+            alpha = alpha0 * (1.0 + 0.5 * k)
+            acv.value = alpha.reshape(d)
+        tl = [pf.transientTerm(phi, dt, float(P['alpha']) if acv is None else acv)] + spatial + ([tv] if P['scheme'] == 'tvd' else [])
+        pf.solvePDE(phi, tl)
         newfull = np.array(phi._value, float)
         if not np.all(np.isfinite(newfull)):
             res.discarded = True
@@ -128,6 +137,7 @@ def check(case):
                          f"backward-Euler step does not satisfy alpha*(new-old)/dt + A new = s in every cell ({tag}, "
                          f"alpha {'cell' if not np.isscalar(P['alpha']) else 'scalar'})")
 
+    alpha = alpha0
     # ---- (iv) explicit step: old + dt*RHS, input untouched
     m, BC, phi = problem.build_var(P)
     rhs = gen.expand('generic', case['rhs_seed'], (A.shape[0],))
